@@ -31,6 +31,7 @@ func c06Gen(t *rapid.T, r *h.Rec) c06Case {
 	o := jsonOpts(av, onEx, onCl)
 	o.Unions, o.EnumStress, o.ManySubPkgs, o.Aliases = 1, true, true, true
 	o.UnionStress = false
+	o.EmbedNamed = true
 	c := c06Case{Spec: synth.GenTypes(t, o), Multi: rapid.Bool().Draw(t, "multi"), GoPath: rapid.Bool().Draw(t, "gopath")}
 	if id, open := av["dart_multi_source_union"]; open && c.Multi {
 		// known finding: with several sources, a member class first reached from a source that does not
@@ -70,6 +71,12 @@ func expectedKeys(spec *synth.Spec, p *synth.Pkg, d *synth.Decl, depth int) []st
 				} else {
 					out = append(out, name)
 				}
+			} else if ed != nil && f.Name[0] >= 'A' && f.Name[0] <= 'Z' && tagGet(f.Tag, "json") != "-" && !strings.Contains(f.Tag, `gomacro:"ignore"`) {
+				// an embedded exported type that is not a struct is an ordinary field named after the type
+				if name == "" {
+					name = f.Name
+				}
+				out = append(out, name)
 			}
 			continue
 		}
